@@ -1,0 +1,15 @@
+//go:build !verif
+
+package types
+
+import (
+	sdk "github.com/cosmos/cosmos-sdk/types"
+)
+
+// Verification hooks are compiled out unless the build tag "verif" is set.
+
+func VerifTrace(_ sdk.Context, _ string, _ ...string) {}
+
+func VerifFail(_ sdk.Context, _ string) error { return nil }
+
+func VerifAnte(decorators []sdk.AnteDecorator) []sdk.AnteDecorator { return decorators }
